@@ -272,5 +272,5 @@ def oracle(case):
 
 
 SUBS = [
-    Sub('histories', strategy(), oracle, quick=640, thorough=19200),
+    Sub('histories', strategy(), oracle, quick=640, thorough=38400),
 ]
